@@ -7,11 +7,13 @@ use crate::core::*;
 use lef21::LefLibrary;
 use serde_json::{json, Value};
 
-pub const FAMILIES: [&str; 19] = [
+pub const FAMILIES: [&str; 23] = [
     "many-macros", "many-pins", "long-point-list", "long-comment-line", "beginext-words-on-one-line", "beginext-words-on-many-lines", "error-after-a-long-line",
     // one family per repeated list of the grammar that the first seven do not stretch
     "many-macro-properties", "many-pin-properties", "many-ports", "many-obs-layers", "many-rects", "many-layer-vias", "many-propdefs", "many-sites", "many-vias", "many-density-rects",
     "many-antenna-attrs", "many-extensions",
+    // the same lists with the shortest possible items (many more items per KiB: per-item scans over the list show)
+    "many-minimal-macros", "many-minimal-pins", "many-minimal-ports", "many-minimal-obs-layers",
 ];
 
 pub fn sizes(t: Tier) -> [usize; 3] {
@@ -103,6 +105,36 @@ pub fn text(family: &str, kib: usize) -> String {
                 i += 1;
             }
             s.push_str("  END\nEND big\n");
+        }
+        "many-minimal-macros" => {
+            let mut i = 0;
+            while s.len() < target {
+                s.push_str(&format!("MACRO m{i}\nEND m{i}\n"));
+                i += 1;
+            }
+        }
+        "many-minimal-pins" | "many-minimal-ports" | "many-minimal-obs-layers" => {
+            s.push_str("MACRO big\n");
+            match family {
+                "many-minimal-ports" => s.push_str("PIN a\n"),
+                "many-minimal-obs-layers" => s.push_str("OBS\n"),
+                _ => {}
+            }
+            let mut i = 0;
+            while s.len() < target {
+                match family {
+                    "many-minimal-pins" => s.push_str(&format!("PIN p{i}\nEND p{i}\n")),
+                    "many-minimal-ports" => s.push_str("PORT\nEND\n"),
+                    _ => s.push_str(&format!("LAYER m{} ;\n", i % 9)),
+                }
+                i += 1;
+            }
+            match family {
+                "many-minimal-ports" => s.push_str("END a\n"),
+                "many-minimal-obs-layers" => s.push_str("END\n"),
+                _ => {}
+            }
+            s.push_str("END big\n");
         }
         "many-propdefs" => {
             s.push_str("PROPERTYDEFINITIONS\n");
